@@ -999,6 +999,75 @@ fn main() {
     );
     fam_wall.push(("e:nsid-version", t0.elapsed().as_secs_f64()));
 
+    // (f) records the encoder cannot write at all (RDATA above 65,535 octets, loaded through the
+    //     zone API): whatever `MessageResponse::encode` falls back to must still be one
+    //     well-formed message within the transport limit that carries the request id
+    ctx.par_run_init(
+        4,
+        1,
+        |_| vsim::rt(),
+        |i, l, rt| {
+            let nstr = [257usize, 258, 300, 1000][i as usize]; // 257 x 255 octets = 65,792 > 65,535
+            let origin = n("z.");
+            let mut zone = InMemoryZoneHandler::<vsim::SimProvider>::empty(origin.clone(), ZoneType::Primary, AxfrPolicy::AllowAll, None);
+            zone.upsert_mut(Record::from_rdata(origin.clone(), 300, RData::SOA(SOA::new(n("ns.o."), n("h.o."), 1, 1, 1, 1, 300))), 1);
+            zone.upsert_mut(Record::from_rdata(origin.clone(), 300, RData::NS(NS(n("ns.o.")))), 1);
+            zone.upsert_mut(Record::from_rdata(n("r.z."), 300, RData::TXT(TXT::new(vec!["t".repeat(254); nstr]))), 1);
+            zone.upsert_mut(Record::from_rdata(n("r.z."), 300, RData::A(A::new(10, 0, 0, 1))), 1);
+            let mut cat = Catalog::new();
+            cat.upsert(origin.into(), vec![Arc::new(zone)]);
+            for (qname, qtype) in [("r.z.", RecordType::TXT), ("r.z.", RecordType::ANY), ("z.", RecordType::AXFR), ("r.z.", RecordType::A)] {
+                for payload in [-1i32, 512, 4096, 65535] {
+                    for tcp in [false, true] {
+                        l.eval();
+                        let q = SrvQuery { name: qname, qtype, dnssec_ok: false };
+                        let req = request_bytes(&q, payload);
+                        let proto = if tcp { Protocol::Tcp } else { Protocol::Udp };
+                        let wit = || json!({"unencodable": true, "nstr": nstr, "qname": qname, "qtype": u16::from(qtype), "payload": payload, "tcp": tcp});
+                        let msgs = match catch(|| rt.block_on(vsim::serve(&cat, &req, proto))) {
+                            Err(p) => {
+                                l.violation(&format!("server-panic:{}", vcore::short_loc(&p.loc)), &p.msg, wit);
+                                continue;
+                            }
+                            Ok(None) => continue,
+                            Ok(Some(m)) => m,
+                        };
+                        let limit = if tcp { 65535 } else { payload.max(512) as usize };
+                        if msgs.is_empty() {
+                            l.violation("server-response-count:0:unencodable", "no response at all for a zone holding an unencodable record", wit);
+                            continue;
+                        }
+                        for b in &msgs {
+                            if b.len() > limit {
+                                l.violation(
+                                    if tcp { "server-over-limit:tcp" } else { "server-over-limit:udp" },
+                                    &format!("{} bytes sent for {:?}, limit {}", b.len(), qtype, limit),
+                                    wit,
+                                );
+                                break;
+                            }
+                            match well_formed(b) {
+                                Err((k, what)) => {
+                                    l.violation(&format!("{k}:unencodable"), &what, wit);
+                                    break;
+                                }
+                                Ok((_, m)) => {
+                                    if m.metadata.id != 7 {
+                                        l.violation("server-question-or-id-changed", "fallback response carries another id", wit);
+                                        break;
+                                    }
+                                    l.outcome(&format!("unencodable:rcode={}", u16::from(m.metadata.response_code)));
+                                }
+                            }
+                        }
+                        l.nontrivial(fnv64(format!("unenc{nstr}{qname}{qtype}{payload}{tcp}").as_bytes()));
+                    }
+                }
+            }
+        },
+    );
+    fam_wall.push(("f:unencodable-record", t0.elapsed().as_secs_f64()));
+
     // (d) large messages through the plain encoder: k copies of a 300-byte TXT record (up to
     //     ~84 KiB) under the limits around every multiple of the record size near 64 KiB
     let big_alpha = alphabet(true);
